@@ -1355,6 +1355,8 @@ class Interp:
         code under contract: the stub simply does not model it -> undecided, never an AttributeError of the program"""
         from .stubs import STUB_SOURCES
 
+        if getattr(self, "_attr_probe", 0) > 0:
+            return
         for c in cls.mro:
             if getattr(c, "module", None) in STUB_SOURCES:
                 raise Unsupported(f"stub {c.module}.{c.name} does not model attribute '{name}' (needed on a {cls.name})")
